@@ -98,7 +98,8 @@ def noWords (r : Str) : Bool :=
 inductive HFlag where
   | mute    -- the lexicon does not mark an aspirated h (or the word is unknown): elide
   | aspire  -- `"h": 1`
-  | crash   -- the lemma is not a `str` and the word is unknown: `lemma.lower()` raises AttributeError
+  | crash   -- (before /repo commit fa11862: lemma not a `str` and word unknown: `lemma.lower()` raised AttributeError;
+            --  no longer produced by the lexicon lookup — kept as an unreachable input value)
   deriving DecidableEq, Repr
 
 structure Tok where
